@@ -97,3 +97,16 @@ func (t Tag) MarshalJSON() ([]byte, error) {
 func (t Tag) MarshalYAML() (any, error) {
 	return MarshalYAML(_tag(t), t.Extensions)
 }
+
+// SummaryFromMeta returns the operation summary set in the given metadata with
+// the "openapi:summary" key or its legacy alias "swagger:summary". When both are
+// present "openapi:summary" wins so that the result does not depend on the
+// iteration order of the map.
+func SummaryFromMeta(meta expr.MetaExpr) (string, bool) {
+	for _, key := range []string{"openapi:summary", "swagger:summary"} {
+		if mdata, ok := meta[key]; ok && len(mdata) > 0 {
+			return mdata[0], true
+		}
+	}
+	return "", false
+}
